@@ -45,9 +45,9 @@ CHECKS["C08"] = cfg(
     "C08",
     technique="runtime monitoring: produce tokens with the real encoders / create_jws, dissect them with own base64url + signing-input formula, decode and verify with the library, negative verification matrix",
     level_text="Generated legal header sets x payload classes x b64 x detached x charset x 1-4 recipients go through the three encoders; every produced token is decoded by the library's decoder and compared (claims, both headers, signing input, signature) with what was given, against the harness's own formula, and verified with the real verifiers. create_jws on CoreDocument/IotaDocument is driven over every JwsSignatureOptions field; each token must verify for its method (every containing scope, kid or method id) and must fail for every other method, wrong/absent nonce and every excluding scope.",
-    min={"quick": {"produced:bridge": 400, "verified:bridge:no-kid": 250, "verified:bridge:json": 250, "documents_with_dangling_references": 20, "produced": 4000, "produced:compact": 800, "produced:flattened": 800, "produced:general": 800, "produced:create_jws": 500,
+    min={"quick": {"near_namesake_documents": 40, "near_namesake_tokens": 300, "near_namesake_verified": 1500, "oracle_ref_signature_checks": 1200, "produced:bridge": 400, "verified:bridge:no-kid": 250, "verified:bridge:json": 250, "documents_with_dangling_references": 20, "produced": 4000, "produced:compact": 800, "produced:flattened": 800, "produced:general": 800, "produced:create_jws": 500,
                    "verified": 5000, "negative_verifications": 5000, "nontrivial": 400},
-         "thorough": {"produced": 100000, "verified": 100000, "negative_verifications": 100000, "nontrivial": 1000}},
+         "thorough": {"near_namesake_documents": 1000, "near_namesake_tokens": 10000, "produced": 100000, "verified": 100000, "negative_verifications": 100000, "nontrivial": 1000}},
     thorough=[{"flavour": "checked", "shards": 16, "timeout": 3000},
               {"flavour": "asan", "tier": "quick", "shards": 8, "timeout": 3000, "args": {"scale": 1000}}],
     assumptions=["an encoder refusing an input is counted, not a violation (the statement is about tokens that were produced)",
@@ -71,9 +71,9 @@ CHECKS["C07"] = cfg(
     "C07",
     technique="runtime monitoring: generated credentials/presentations -> serialize_jwt -> claims-shape oracle -> back-conversion through the validators (always-Ok verifier) compared with the original; enumerated tampered claim sets",
     level_text="Credentials and presentations generated over every optional field are converted to JWT claims by the library; the claims are checked for the registered claims carried exactly once and for vc/vp not repeating them, then converted back through the only public path (validators with an always-Ok verifier) and compared for equality. All 20736 tampering vectors (each duplicated member absent/equal/different x registered claim present/absent x iat/nbf forms) plus numeric dates at the range ends are fed to the same path: disagreeing duplicates and out-of-range dates must be rejected.",
-    min={"quick": {"raw_dup_cases": 800, "raw_dup_rejected": 600, "raw_control_accepted": 200, "numeric_spelling_cases": 1500, "numeric_spelling_rejected": 1500, "credentials_serialized": 3000, "credential_backconversions": 2000, "presentation_backconversions": 800,
+    min={"quick": {"nearmiss_cases": 600, "nearmiss_disagreeing": 400, "nearmiss_roundtrips": 80, "nearmiss_same_after_serialisation": 150, "raw_dup_cases": 800, "raw_dup_rejected": 600, "raw_control_accepted": 200, "numeric_spelling_cases": 1500, "numeric_spelling_rejected": 1500, "credentials_serialized": 3000, "credential_backconversions": 2000, "presentation_backconversions": 800,
                    "tampered_accepted": 100, "tampered_rejected": 3000, "nontrivial": 1000},
-         "thorough": {"credentials_serialized": 100000, "credential_backconversions": 80000, "tampered_rejected": 20000, "nontrivial": 5000}},
+         "thorough": {"nearmiss_cases": 600, "nearmiss_disagreeing": 400, "credentials_serialized": 100000, "credential_backconversions": 80000, "tampered_rejected": 20000, "nontrivial": 5000}},
     assumptions=["a duplicated vc member whose registered claim is absent may be rejected or accepted (latitude)",
                  "an out-of-range iat that is shadowed by an in-range nbf is not judged",
                  "custom claims None and {} are the same observation",
@@ -84,8 +84,8 @@ CHECKS["C02"] = cfg(
     "C02",
     technique="runtime monitoring: decision-table oracle over harness-constructed scenarios (own keys, own JWT assembler); accept <=> all conditions; errors must identify falsified conditions",
     level_text="Every scenario is built by the harness so that the truth of each of the 12 conditions (signature, kid/method-id lookup, scope, kid DID vs document, issuer vs method DID, nonce, issuance/expiry bounds at +-1 s, structure, subject-holder mode, status form x mode) is known by construction. validate() must accept exactly when all hold; with AllErrors the reported concerns must equal the falsified credential-side conditions, with FirstError be one of them; signature-side failures must be identified by a matching error family; on acceptance the returned credential, header and custom claims must be those signed. Includes the exhaustive 2^5 credential-side table and verify_signature over two trusted issuers.",
-    min={"quick": {"issuer_table_rows": 40, "service_list_table_rows": 70, "sole_false_issuer_did_method_name": 15, "status_with_same_fragment_services": 600, "wall_clock_accepted": 10, "wall_clock_rejected": 60, "accepted": 800, "rejected:credential-side": 800, "rejected:signature-side": 800, "u_table_rows": 200, "distinct:condition_vectors": 150},
-         "thorough": {"accepted": 200000, "rejected:credential-side": 200000, "rejected:signature-side": 200000, "distinct:condition_vectors": 250}},
+    min={"quick": {"namesake_table_rows": 2600, "namesake_rows": 3000, "namesake_foreign_signed_in_scope_prefix_related": 300, "namesake_genuine_next_to_prefix_related": 150, "namesake_accepted": 250, "issuer_table_rows": 40, "service_list_table_rows": 70, "sole_false_issuer_did_method_name": 15, "status_with_same_fragment_services": 600, "wall_clock_accepted": 10, "wall_clock_rejected": 60, "accepted": 800, "rejected:credential-side": 800, "rejected:signature-side": 800, "u_table_rows": 200, "distinct:condition_vectors": 150},
+         "thorough": {"namesake_table_rows": 2600, "namesake_rows": 30000, "accepted": 200000, "rejected:credential-side": 200000, "rejected:signature-side": 200000, "distinct:condition_vectors": 250}},
     assumptions=["validation bounds are always explicit (no wall clock)",
                  "signature-side error families are matched loosely (any family belonging to a falsified condition)"],
 )
